@@ -102,6 +102,7 @@ type Manager struct {
 	lastPollTime   time.Time
 	nextPollTime   time.Time
 	pollTimer      *time.Timer
+	wakeCount      uint64 // number of completed wakes (guarded by stateMu); lets a poll notice it was overtaken
 
 	// Deterministic windows
 	localID    identity.AgentID
@@ -319,6 +320,7 @@ func (m *Manager) Wake() error {
 
 	// Update state
 	m.state.Store(StateAwake)
+	m.wakeCount++
 	sleepDuration := time.Since(m.sleepStartTime)
 	m.sleepStartTime = time.Time{}
 	m.nextPollTime = time.Time{}
@@ -356,6 +358,7 @@ func (m *Manager) Poll() error {
 	// Transition to polling
 	m.state.Store(StatePolling)
 	m.lastPollTime = time.Now()
+	wakesAtStart := m.wakeCount
 	m.stateMu.Unlock()
 
 	m.logger.Debug("starting poll")
@@ -377,8 +380,11 @@ func (m *Manager) Poll() error {
 	m.stateMu.Lock()
 	defer m.stateMu.Unlock()
 
-	// Check if we were woken during poll
-	if m.state.Load().(State) == StateAwake {
+	// Check if we were woken during poll. The state alone is not enough: a
+	// Wake followed by a new Sleep leaves the state SLEEPING again, and this
+	// poll must then neither disconnect nor reschedule on behalf of the old
+	// sleep period (the new one has its own poll timer).
+	if m.wakeCount != wakesAtStart || m.state.Load().(State) == StateAwake {
 		return nil
 	}
 
